@@ -27,6 +27,81 @@ pub enum Seed {
     /// empty elements that declare one more each; attributes are separated by the white space character number `sep`
     /// (space, line feed, tab, carriage return)
     ManyNamespaces { on_root: u16, leaves: u32, sep: u8 },
+    /// hand-built file whose root element declares `namespaces` extension namespaces with URIs of `uri_len` bytes that
+    /// differ only in their last characters, and one empty point cloud whose prototype has `records` constant records
+    /// in the namespace declared last
+    LongNamespaceRecords { namespaces: u16, uri_len: u32, records: u32 },
+    /// hand-built file without point clouds whose file GUID (a String element) is written as `pieces` pieces of
+    /// character data: alternately an empty CDATA section and `piece_len` characters of plain text (`kind` 0), or CDATA
+    /// sections separated by a carriage return reference as the crate's own writer splits strings (`kind` 1)
+    SplitText { pieces: u32, piece_len: u16, kind: u8 },
+}
+
+fn xml_only_file(xml: &str) -> Vec<u8> {
+    let xml_log = 48u64;
+    let total_log = xml_log + xml.len() as u64;
+    let pages_n = (total_log + 1019) / 1020;
+    let mut log = vec![0u8; 48];
+    log[0..8].copy_from_slice(b"ASTM-E57");
+    log[8..12].copy_from_slice(&1u32.to_le_bytes());
+    log[16..24].copy_from_slice(&(pages_n * 1024).to_le_bytes());
+    log[24..32].copy_from_slice(&pages::log_to_phys(xml_log).to_le_bytes());
+    log[32..40].copy_from_slice(&(xml.len() as u64).to_le_bytes());
+    log[40..48].copy_from_slice(&1024u64.to_le_bytes());
+    log.extend_from_slice(xml.as_bytes());
+    pages::page(&log)
+}
+
+/// See `Seed::SplitText`.
+pub fn split_text_file(pieces: usize, piece_len: usize, kind: u8) -> Vec<u8> {
+    let mut xml = String::from("<?xml version=\"1.0\" encoding=\"UTF-8\"?>\n<e57Root type=\"Structure\" xmlns=\"http://www.astm.org/COMMIT/E57/2010-e57-v1.0\">\n<formatName type=\"String\"><![CDATA[ASTM E57 3D Imaging Data File]]></formatName>\n<guid type=\"String\">");
+    let plain = "x".repeat(piece_len);
+    for _ in 0..pieces {
+        if kind % 2 == 0 {
+            xml.push_str("<![CDATA[]]>");
+            xml.push_str(&plain);
+        } else {
+            xml.push_str("<![CDATA[");
+            xml.push_str(&plain);
+            xml.push_str("]]>&#13;");
+        }
+    }
+    xml.push_str("</guid>\n<versionMajor type=\"Integer\">1</versionMajor>\n<versionMinor type=\"Integer\">0</versionMinor>\n<data3D type=\"Vector\" allowHeterogeneousChildren=\"1\"/>\n<images2D type=\"Vector\" allowHeterogeneousChildren=\"1\"/>\n</e57Root>\n");
+    xml_only_file(&xml)
+}
+
+/// See `Seed::LongNamespaceRecords`.
+pub fn long_namespace_records_file(namespaces: usize, uri_len: usize, records: usize) -> Vec<u8> {
+    let section_log = 48u64;
+    let xml_log = section_log + 32;
+    let mut xml = String::from("<?xml version=\"1.0\" encoding=\"UTF-8\"?>\n<e57Root type=\"Structure\" xmlns=\"http://www.astm.org/COMMIT/E57/2010-e57-v1.0\"");
+    let stem = "u".repeat(uri_len.saturating_sub(8).max(1));
+    for i in 0..namespaces.max(1) {
+        xml.push_str(&format!(" xmlns:p{i}=\"urn:{stem}{i:05}\""));
+    }
+    let last = namespaces.max(1) - 1;
+    xml.push_str(">\n<formatName type=\"String\"><![CDATA[ASTM E57 3D Imaging Data File]]></formatName>\n<guid type=\"String\"><![CDATA[{long-namespaces}]]></guid>\n<versionMajor type=\"Integer\">1</versionMajor>\n<versionMinor type=\"Integer\">0</versionMinor>\n<data3D type=\"Vector\" allowHeterogeneousChildren=\"1\">\n<vectorChild type=\"Structure\">\n<guid type=\"String\"><![CDATA[{cloud}]]></guid>\n");
+    xml.push_str(&format!("<points type=\"CompressedVector\" fileOffset=\"{}\" recordCount=\"0\">\n<prototype type=\"Structure\">\n", pages::log_to_phys(section_log)));
+    for i in 0..records {
+        xml.push_str(&format!("<p{last}:r{i} type=\"Integer\" minimum=\"7\" maximum=\"7\"/>\n"));
+    }
+    xml.push_str("</prototype>\n<codecs type=\"Vector\" allowHeterogeneousChildren=\"1\"/>\n</points>\n</vectorChild>\n</data3D>\n<images2D type=\"Vector\" allowHeterogeneousChildren=\"1\"/>\n</e57Root>\n");
+    let total_log = xml_log + xml.len() as u64;
+    let pages_n = (total_log + 1019) / 1020;
+    let mut log = vec![0u8; 48];
+    log[0..8].copy_from_slice(b"ASTM-E57");
+    log[8..12].copy_from_slice(&1u32.to_le_bytes());
+    log[16..24].copy_from_slice(&(pages_n * 1024).to_le_bytes());
+    log[24..32].copy_from_slice(&pages::log_to_phys(xml_log).to_le_bytes());
+    log[32..40].copy_from_slice(&(xml.len() as u64).to_le_bytes());
+    log[40..48].copy_from_slice(&1024u64.to_le_bytes());
+    let mut sec = vec![0u8; 32];
+    sec[0] = 1;
+    sec[8..16].copy_from_slice(&32u64.to_le_bytes());
+    sec[16..24].copy_from_slice(&pages::log_to_phys(xml_log).to_le_bytes());
+    log.extend_from_slice(&sec);
+    log.extend_from_slice(xml.as_bytes());
+    pages::page(&log)
 }
 
 /// See `Seed::ManyNamespaces`.
@@ -213,6 +288,8 @@ pub fn seed_bytes(s: &Seed) -> Result<Vec<u8>, String> {
         Seed::Bundled(n) => crate::preflight::bundled(n),
         Seed::ConstHeavy { consts, points } => Ok(const_heavy_file(*consts as usize, (*points as usize).min(440_000))),
         Seed::ManyNamespaces { on_root, leaves, sep } => Ok(many_namespaces_file((*on_root as usize).min(5000), (*leaves as usize).min(300_000), *sep)),
+        Seed::LongNamespaceRecords { namespaces, uri_len, records } => Ok(long_namespace_records_file((*namespaces as usize).min(600), (*uri_len as usize).min(30_000), (*records as usize).min(200_000))),
+        Seed::SplitText { pieces, piece_len, kind } => Ok(split_text_file((*pieces as usize).min(1_000_000), (*piece_len as usize).min(4096), *kind)),
         Seed::TinyPackets { records, packets } => Ok(tiny_packets_file((*records as usize).min(30_000), (*packets as usize).min(8_000_000))),
     }
 }
@@ -776,7 +853,7 @@ fn apply_mut(img: &mut Img, m: &Mut) {
 /// Apply a mutation script; the result need not be a valid file.
 pub fn mutate(sc: &Script) -> Result<Vec<u8>, String> {
     let seed = seed_bytes(&sc.seed)?;
-    if matches!(sc.seed, Seed::ConstHeavy { .. } | Seed::TinyPackets { .. } | Seed::ManyNamespaces { .. }) {
+    if matches!(sc.seed, Seed::ConstHeavy { .. } | Seed::TinyPackets { .. } | Seed::ManyNamespaces { .. } | Seed::LongNamespaceRecords { .. } | Seed::SplitText { .. }) {
         // used as it is (decoding it with the reference decoder would itself need gigabytes)
         return Ok(seed);
     }
